@@ -16,9 +16,21 @@ def scenarios(seed, tier, failed):
             op = rnd.choice(['defer', 'defer', 'recall', 'post_fifo', 'post_lifo', 'scribble'])
             ops.append([op] if op == 'recall' else [op, rnd.choice(['X', 'Y', 'Z'])])
         yield {'kind': 'markers', 'ops': ops, 'instrumented': rnd.random() < 0.8}
+    # long runs: more lines / records than the ring buffers hold, also after clear_spy() / clear_trace()
+    for clear in (False, True):
+        yield {'kind': 'chart', 'parent': [-1, 0, 0], 'init': [None, None, None], 'start': 1, 'host': 'HsmWithQueues',
+               'react': {'0': {'S2': ['handled', None]}, '1': {'S0': ['tran', 2], 'S1': ['handled', None]}, '2': {'S0': ['tran', 1]}},
+               'events': (['S0'] * 5 + ['S1', 'S2']) * 110, 'spy': True, 'live_spy': False, 'live_trace': False,
+               'coarse_clock': False, 'exit_handled': [True] * 3, 'entry_handled': [True] * 3, 'timeout': 90,
+               'clear_after_start': clear}
     for k, sc in enumerate(instr.scenarios(seed, tier, failed, live=False)):
         if k % 3 == 0:
             sc['hook_queries'] = True
+        if k % 4 == 1:
+            # application signals whose names look like the processor's own (they end in _SIGNAL)
+            ren = lambda sg: sg + '_SIGNAL'
+            sc['react'] = {s_: {ren(sg): r for sg, r in rs.items()} for s_, rs in sc['react'].items()}
+            sc['events'] = [ren(sg) for sg in sc['events']]
         yield sc
 
 
